@@ -383,7 +383,7 @@ class Monitor:
     _r_report = 0
 
 
-def execute(cfg, extra_next=3, want_trace=False):
+def execute(cfg, extra_next=3, want_trace=False, action_hook=None):
     """Build the schedule for `cfg`, carry its stream out literally, return a
     picklable result dict:
       viol: [(prop, predicate, detail)], status: ok|construct-raised|inconclusive,
@@ -441,6 +441,9 @@ def execute(cfg, extra_next=3, want_trace=False):
                 if stops:
                     mon.v("C09", "resumes-after-stop", "action after StopIteration")
                 try:
+                    if action_hook is not None:
+                        for pred, detail in action_hook(a):
+                            mon.v("C18", pred, detail)
                     mon.on_action(a)
                 except LibError as e:
                     mon.v("C10", "finalize-rejected", str(e))
